@@ -174,6 +174,77 @@ macro_rules! typed_map_check {
     };
 }
 
+/// typed maps big enough that records relocate: value file beyond 2 MiB, key file beyond 16 KiB, long chains.
+/// Every integer still addresses its own entry and iteration still returns the integers that were put.
+macro_rules! typed_big_check {
+    ($fname:ident, $open:ident, $int:ty, $label:expr) => {
+        fn $fname(a: &Args, ctx: &mut Ctx, rng: &mut Rng) -> Result<(), String> {
+            let dir = a.scratch.join(concat!("c10big_", $label));
+            let _ = std::fs::remove_dir_all(&dir);
+            let db = abyssiniandb::open_file(&dir).map_err(|e| e.to_string())?;
+            let mut m = db.$open("ints", Cfg::small(*rng.pick(&[1u64, 8, 64])).params()).map_err(|e| e.to_string())?;
+            let mut model: BTreeMap<$int, Vec<u8>> = BTreeMap::new();
+            let n = a.get_u64("big_entries", 1700) as usize;
+            let mut ints: Vec<$int> = Vec::new();
+            while ints.len() < n {
+                let x = crate::kt::int_sample(rng) as $int;
+                if !model.contains_key(&x) {
+                    let v = crate::util::gen_bytes(1400 + (ints.len() % 7) * 31, ints.len() as u32, 0);
+                    m.put(&x, &v).map_err(|e| format!("put: {e}"))?;
+                    model.insert(x, v);
+                    ints.push(x);
+                }
+            }
+            // early entries (low offsets) get longer values: they move to the far end of the value file,
+            // their key records get a wider offset field and may have to move as well
+            for (j, x) in ints.iter().enumerate().take(400) {
+                let v = crate::util::gen_bytes(1700 + (j % 5) * 17, 90_000 + j as u32, 0);
+                m.put(x, &v).map_err(|e| format!("put: {e}"))?;
+                model.insert(*x, v);
+                if j % 9 == 4 {
+                    let y = ints[ints.len() - 1 - j];
+                    let got = m.delete(&y).map_err(|e| format!("delete: {e}"))?;
+                    if got != model.remove(&y) {
+                        return Err(format!("{}: delete({y}) in a large map returned a wrong value", $label));
+                    }
+                }
+            }
+            if m.len().map_err(|e| e.to_string())? != model.len() as u64 {
+                return Err(format!("{}: large map: len() {} but {} distinct integers are live", $label, m.len().unwrap(), model.len()));
+            }
+            for (x, v) in model.iter() {
+                if m.get(x).map_err(|e| e.to_string())?.as_ref() != Some(v) {
+                    return Err(format!("{}: large map: get({x}) does not return the value put for it", $label));
+                }
+            }
+            let mut seen: BTreeSet<$int> = BTreeSet::new();
+            for (k, v) in m.iter() {
+                let x: $int = <$int>::from(&k);
+                match model.get(&x) {
+                    Some(mv) if *mv == v => {}
+                    _ => return Err(format!("{}: large map: iteration yields key {x} (bytes {:?}) that was never put / with a wrong value", $label, k.as_bytes())),
+                }
+                if !seen.insert(x) {
+                    return Err(format!("{}: large map: iteration yields {x} twice", $label));
+                }
+            }
+            if seen.len() != model.len() {
+                return Err(format!("{}: large map: iteration yields {} integers, {} are live", $label, seen.len(), model.len()));
+            }
+            ctx.count("typed_big_maps", 1);
+            ctx.count("typed_big_entries", model.len() as u64);
+            ctx.max("max_typed_big_val_file", std::fs::metadata(dir.join("ints.val")).map(|x| x.len()).unwrap_or(0));
+            drop(m);
+            drop(db);
+            let _ = std::fs::remove_dir_all(&dir);
+            Ok(())
+        }
+    };
+}
+typed_big_check!(big_u64, db_map_u64_with_params, u64, "DbU64");
+typed_big_check!(big_i64, db_map_i64_with_params, i64, "DbI64");
+typed_big_check!(big_vu64, db_map_vu64_with_params, u64, "DbVu64");
+
 typed_map_check!(check_u64, db_map_u64_with_params, u64, DbU64, "DbU64");
 typed_map_check!(check_i64, db_map_i64_with_params, i64, DbI64, "DbI64");
 typed_map_check!(check_vu64, db_map_vu64_with_params, u64, DbVu64, "DbVu64");
@@ -290,6 +361,13 @@ pub fn run(a: &Args) -> Ctx {
             }
         }
     }
+    for (nm, r) in [("u64", big_u64(a, &mut ctx, &mut rng)), ("i64", big_i64(a, &mut ctx, &mut rng)), ("vu64", big_vu64(a, &mut ctx, &mut rng))] {
+        if let Err(m) = r {
+            fail(&mut ctx, format!("[{nm}] {m}"));
+            return ctx;
+        }
+    }
+    ctx.drain_notes();
     if let Err(m) = byte_keys_check(a, &mut ctx, &mut rng) {
         fail(&mut ctx, m);
         return ctx;
